@@ -229,8 +229,11 @@ def load_known():
     return res
 
 def write_evidence(pid, ev):
-    os.makedirs(os.path.join(VERIF, "evidence"), exist_ok=True)
-    p = os.path.join(VERIF, "evidence", pid + ".json")
+    # VERIF_EVIDENCE_DIR: used by the coordinator's mutation runs (lib/seedtest.sh) so that a run against a
+    # deliberately broken /repo does not overwrite the committed evidence of the unchanged tree
+    evdir = os.environ.get("VERIF_EVIDENCE_DIR") or os.path.join(VERIF, "evidence")
+    os.makedirs(evdir, exist_ok=True)
+    p = os.path.join(evdir, pid + ".json")
     json.dump(ev, open(p, "w"), indent=1, sort_keys=True)
 
 def write_replay(pid, seed, payload):
